@@ -1,14 +1,16 @@
 #!/bin/sh
 # development aid: tools/quick_detect.sh <Cxx> <patch.diff> [tier]  -- run the check against a scratch worktree of /repo HEAD with the patch applied
+# (own replay directory, so several of these may run side by side, also for one property)
 prop=$1; diff=$(readlink -f "$2"); tier=${3:-quick}
-wt=/tmp/ws/qd_$$
+wt=/tmp/ws/qd_$$; rd=/tmp/ws/qd_replays_$$
 mkdir -p /tmp/ws
 git -C /repo worktree add -q --detach $wt HEAD || exit 2
 if git -C $wt apply $diff 2>/dev/null || git -C $wt apply --3way $diff 2>/dev/null; then
-  cd "$(dirname "$0")/.." && PFHEDGE_REPO=$wt VERIF_DEV_SKIP_LEAN=1 ./check $prop --tier $tier 2>&1 | grep -v "Warning\|KNOWN-FINDING" | tail -4
-  for r in $(ls replays/$prop-*.json 2>/dev/null | head -3); do python3 -c "
+  cd "$(dirname "$0")/.." && PFHEDGE_REPO=$wt VERIF_DEV_SKIP_LEAN=1 VERIF_DEV_REPLAY_DIR=$rd ./check $prop --tier $tier 2>&1 | grep -v "Warning\|KNOWN-FINDING" | tail -4
+  for r in $(ls $rd/$prop-*.json 2>/dev/null | head -3); do python3 -c "
 import json;r=json.load(open('$r'));print('   key:',r.get('key'),'|',(r.get('what') or str(r.get('ties_broken'))[:300])[:300])"; done
 else
   echo "PATCH DOES NOT APPLY"
 fi
+rm -rf $rd
 git -C /repo worktree remove --force $wt
